@@ -24,7 +24,7 @@ Variable extras : bool.
 Variable uprop : name -> option (N -> bool).
 Variable w : list byte.
 Variable Inv : state_inv.
-Hypothesis HP : preserved G extras uprop w Inv.
+Hypothesis HP : preserved G extras uprop w (fun _ => True) Inv.
 Notation equiv := (equiv G extras uprop w Inv).
 
 Lemma body_atom_atomic ty a : atomic_ty ty = true -> body_atom ty a -> atom_eqb a NonAtomic = false.
@@ -39,7 +39,7 @@ Proof.
     | |- context [if atomic_ty ?t then _ else _] => destruct (atomic_ty t) eqn:?AT
     end; try apply equiv_refl;
     repeat match goal with E : expr_eqb _ _ = true |- _ => apply expr_eqb_eq in E; try subst end;
-    try (apply factor_common); try (apply factor_absorb);
+    try (apply factor_common); try (apply factor_absorb); try (apply factor_opt; eapply body_atom_atomic; eauto);
     try (match goal with E : _ = _ |- _ => rewrite <- E end; apply factor_opt; eapply body_atom_atomic; eauto);
     try (match goal with E : _ = _ |- _ => rewrite <- E end; apply factor_absorb).
 Qed.
@@ -47,7 +47,7 @@ Qed.
 Theorem factor_expr_equiv ty a e e' : body_atom ty a -> factor_expr ty e = Some e' -> equiv a e e'.
 Proof.
   unfold factor_expr. intros BA H.
-  apply (map_top_down_equiv G extras uprop w Inv HP a (fun _ => True) (fun x => Some (factor_fn ty x))) in H.
+  apply (map_top_down_equiv G extras uprop w (fun _ => True) Inv HP a (fun x => Some (factor_fn ty x))) in H.
   - tauto.
   - intros x y _ [= <-]. split; [now apply factor_fn_equiv|apply Forall_True].
   - apply Forall_True.
@@ -62,6 +62,6 @@ Proof.
   assert (Law : forall Gx r r' a0, factor_rule r = Some r' -> body_atom (rty r) a0 -> equiv Gx extras uprop w (fun _ _ => True) a0 (rexpr r) (rexpr r')).
   { intros Gx r r' a0 E BA. apply with_expr_inv in E. eapply factor_expr_equiv; [apply preserved_True|exact BA|exact E]. }
   split; intros B.
-  - eapply (pass_backward G G' extras uprop w (fun _ _ => True) factor_rule); eauto using preserved_True.
-  - eapply (pass_forward G G' extras uprop w (fun _ _ => True) factor_rule); eauto using preserved_True.
+  - eapply (pass_backward G G' extras uprop w (fun _ => True) (fun _ _ => True) factor_rule); eauto using preserved_True, Forall_True', jvalid_True.
+  - eapply (pass_forward G G' extras uprop w (fun _ => True) (fun _ _ => True) factor_rule); eauto using preserved_True, Forall_True', jvalid_True.
 Qed.
